@@ -179,7 +179,7 @@ T = {
         "(one 1e6 voxel sizes away), four payload layouts and both constructor forms; for each image every voxel of the image plus a halo "
         "of 2 and a lattice of interior offsets is pushed through coordinate()/voxel() in batch, single, list, tuple and typed-point forms "
         "and compared with the closed-form model.",
-        "Trusted: the axis convention written in props/c01.py; float64 rounding bound 8 eps x magnitude. Points within 1/8 voxel of a voxel boundary are outside the alphabet.",
+        "Trusted: the axis convention written in props/c01.py; float64 rounding bound 8 eps x magnitude. Interior points down to 2^-20 of a voxel from a face are in the alphabet; closer ones (rounding level) are not.",
         "DESIGN.md §3 C01",
     ),
     "C06": (
@@ -219,6 +219,26 @@ T = {
     ),
 }
 
+# what the seeding rounds added to each check (appended to the level text)
+EXTRA = {
+    "C01": "Also: index-array / mask selection on typed batches, in-place origin changes between conversions, fractional positions as list / tuple / nested list, points 2^-20 of a voxel inside each face.",
+    "C02": "Also: origins spelled with Python ints, dated series spanning more than a day with an explicit reference date, an independent time reference for assembly, a cap on the reachable state count (excess = violation).",
+    "C03": "Also: mixed resolutions (each axis refined, coarsened or kept), weight containers shared between geometries, long num_voxels, normalise at three physical scales and on integer-typed / float32 images.",
+    "C04": "Also: a second computation on the same solver object compared with a fresh object; a fault in the k-th solve of that second computation; a status ladder (each stopping criterion alone, tolerance 2^0..2^-30, masses x16 and x1/16); masses of magnitude 2^-30 with the library's default solver tolerances.",
+    "C05": "Also: constant-weight scaling with all other options unchanged in every L1 x mobility mode (Newton and Bregman); scalar voxel size on thin multi-axis grids; 1xnx1 / 1x1xn grids; EMD object reuse and process history.",
+    "C06": "Also: three voxel-size forms; every case starts from a process state in which operators of the same shape with other voxel sizes were built; negative fields; integer and float32 cell quantities; caller arrays updated in place between calls; results of earlier calls stay unchanged.",
+    "C08": "Also: right-hand sides of magnitude 2^-40; the system handed in stays unchanged; solutions returned by earlier solves stay unchanged; one options dict shared between back-ends; process history.",
+    "C10": "Also: a used correction re-configured through its own save()/load() (or re-assignment of its public scaling) must behave like a fresh object so configured.",
+    "C11": "Also: images whose float data arrived after construction around integer data; resize histories on one object; position (origin) of reduced images; non-square voxels with offsets in superposition.",
+    "C14": "Also: label-wise linear model on signals at other resolutions than the label map, all call sequences of length <= 3 over 4 resolutions against a fresh model.",
+    "C15": "Also: the rule actually applied inside transport_density per L1 mode on generic grids and grids with single-cell axes; every (modify a returned rule in place, request any rule again) pair.",
+    "C16": "Also: float32 inputs, a caller-owned options dict shared by distance objects, scalar parameter updates of MG, Jacobi without h, front-end distances on a stretched domain of equal voxel count and volume.",
+    "C17": "Also: odd extents and wide-range operands, coarsening on odd extents, ROIs outside the image, big-int / negative-int scalars.",
+    "C18": "Also: file names re-used between save generations.",
+    "C19": "Also: set_image on a patch followed by assemble.",
+    "C20": "Also: origin changes between calls, coordinate_vector on sub-voxel vectors, to_vtk layout through a recording pyevtk stand-in, coordinate systems of 1-D/2-D/3-D images created in every order and kept.",
+}
+
 NOT_YET = "check not built yet in this revision (see DESIGN.md §6 for the order of work)"
 
 
@@ -228,6 +248,8 @@ def main():
     for pid in props:
         if pid in T and os.path.exists(os.path.join(HOME, "props", pid.lower() + ".py")):
             level, tech, text, note, ref = T[pid]
+            if pid in EXTRA:
+                text = text + " " + EXTRA[pid]
             checks.append(
                 {
                     "property_id": pid,
